@@ -545,6 +545,9 @@ func (r *Reader) ReadMessage(codec Codec) (messageInstance any, err error) {
 		}
 	} else {
 		// 外部消息反序列化
+		if codec == nil {
+			return nil, fmt.Errorf("%w: %q", ErrCodecRequired, messageName)
+		}
 		messageInstance, err = codec.Decode(messageData)
 		if err != nil {
 			return
